@@ -12,6 +12,15 @@ def build_dfa(j):
     return DFA(set(j["Q"]), set(j["S"]), {(t[0], t[1]): t[2] for t in j["T"]}, j["q0"], set(j["F"]))
 
 
+def _pc_actual(r, tr):
+    """the configurations the closure returned; a result larger than the model allows (one start configuration
+    plus what `limit` pops of <= 3 moves can add) is recorded by its size only - it already differs from `expected`"""
+    r = list(r or [])
+    if len(r) > 1 + 3 * tr["limit"] + len(tr["final"]):
+        return [["oversized result", [str(len(r))]]]
+    return sorted([c.q, list(c.stack)] for c in r)
+
+
 class Chooser:
     """follows a schedule; records whether every scheduled choice was available"""
 
@@ -102,7 +111,7 @@ def replay_line(line):
                "accepted": ab.words([""] if acc else []), "exc": exc2, "src": src}
         yield {"op": "sched_replay", "algo": "pc", "followed": ch.ok and ch.k == len(tr["schedule"]) and ch2.ok,
                "expected": sorted([c[0], list(c[1])] for c in tr["final"]),
-               "actual": sorted([c.q, list(c.stack)] for c in (r or [])) if exc == "none" else [exc], "src": src}
+               "actual": _pc_actual(r, tr) if exc == "none" else [exc], "src": src}
     elif algo == "ec":
         Q = sorted({x for e in tr["edges"] for x in e} | set(tr["start"]) | {"s0", "s1", "s2"})
         delta = defaultdict(set)
